@@ -130,6 +130,26 @@ Theorem c20_output_by_reference_refuted : forall (A : Type) (st : store A) (r : 
   commit A st [(r, unredacted)] r = unredacted.
 Proof. exact output_by_reference_overwritten. Qed.
 
+(* OPAQUE VALUES, ANY DEPTH.  A decoded JSON value held in an interface{} (extend_verify, filter / per-filter configs,
+   health-check and codec configs, metadata ...) is a tree of maps and slices held BY REFERENCE: a copy of the enclosing
+   struct, or a one-level copy of the top map, still shares every nested map.  The typed redactor writes nothing below such
+   a position (src_redact_tls_shallow: redactTLSConfig only assigns the PrivateKey field of its argument - no call, no loop;
+   the opaque positions are redacted on the serialized text, which RedactDumpJSON decodes itself).  In the reference model
+   rjson (objects / arrays carry their storage region): for EVERY opaque value and every next, the in-place JSON redactor
+   run on a DEEP copy (all regions new: what decoding a serialisation gives) writes only regions >= next - none of the
+   live configuration, at any depth ... *)
+Theorem c20_opaque_deep_copy_pure : forall next j, Forall (fun r => (next <= r)%N) (blank_inplace (copy_deep next j)).
+Proof. exact deep_copy_redaction_pure. Qed.
+Print Assumptions c20_opaque_deep_copy_pure.
+Theorem c20_source_redact_tls_shallow : src_redact_tls_shallow = true.
+Proof. exact (eq_refl true). Qed.
+(* (f) ... while a ONE-LEVEL copy of the map is refuted: the private_key two levels down in a live extend_verify (regions
+   1..3, next = 10) is written in live region 3; only a key at the top of the map lands in the copy (region 10) *)
+Theorem c20_pure_refuted_with_one_level_copy :
+  blank_inplace (copy_top 10 w_ev_nested) = [3%N] /\ blank_inplace (copy_top 10 w_ev_top) = [10%N] /\
+  blank_inplace (copy_deep 10 w_ev_nested) = [13%N].
+Proof. exact top_copy_redaction_refuted. Qed.
+
 (* THE TEXT, WHATEVER ITS SPELLING.  RedactDumpJSON is given a TEXT; the same member can be spelled in many ways in it
    (private\u005fkey, \u0050rivate_key, Private\u005FKey ... are the member private_key to every JSON decoder, and the tunnel_agent
    parser reads its TLS context from it).  The redaction is specified on the value the text DECODES to: sjson is a document
